@@ -38,6 +38,7 @@ type stats struct {
 	modelAmbiguous, backdated, richNames, sleptWithACL, parkedInsideFeed, removeReaddRace      bool
 	startedWhileInsideFeed, mixedEnc, nilPath, perPathOrigins, rpcDeadline, walkParkedInInsert bool
 	aclFlipped, oddTargetNames, updatesOnlyRound, atomicTwist                                  bool
+	foreignWrite, foreignDeniedStored, pollFlood, pollFloodBig, pollFloodLeftStalled           bool
 	skippedSteps, maxBulk, maxOnceLeaves                                                       int
 }
 
@@ -90,6 +91,11 @@ func (s *stats) labels() []string {
 	add(s.atomicTwist, "atomic-container-re-sent-with-the-same-values-on-rotated-member-paths")
 	add(s.updatesOnlyRound, "once-or-poll-round-with-updates-only")
 	add(s.oddTargetNames, "target-names-with-glob-character-case-twins-or-separators")
+	add(s.foreignWrite, "notification-stored-through-another-targets-entry-point")
+	add(s.foreignDeniedStored, "notification-naming-a-denied-target-stored-under-an-allowed-one")
+	add(s.pollFlood, "poll-triggers-while-the-subscriber-is-stalled")
+	add(s.pollFloodBig, "poll-triggers-while-stalled>=5")
+	add(s.pollFloodLeftStalled, "poll-client-left-stalled-after-triggers")
 	add(s.maxBulk > 32, "bulk-update>32")
 	add(s.maxBulk > 64, "bulk-update>64")
 	add(s.maxBulk > 256, "bulk-update>256")
@@ -264,6 +270,7 @@ type subState struct {
 	offers      int        // items offered during the current step
 	stallStart  int64      // virtual time the currently parked Send began (from the stream)
 	timedOut    bool
+	flooded     bool // poll triggers were issued while it was not reading (pollflood): the C05 round clauses do not apply
 }
 
 type qitem struct {
@@ -292,6 +299,7 @@ type writer struct {
 	alive  []*subState // subscriptions that were running when the operation began
 	n      *pb.Notification
 	cb     bool // parked inside the feed callback
+	via    string // noti: the target through whose entry point it is written ("" = the one its prefix names)
 }
 
 type world struct {
@@ -327,6 +335,7 @@ type world struct {
 	live      map[string]bool
 	st        stats
 	fail      *failure
+	foreign   bool // a writer stored a notification through another target's entry point (WOp.Via)
 }
 
 func (w *world) failf(prop, format string, a ...any) {
@@ -691,6 +700,12 @@ func (w *world) doWriter(wr *writer) {
 	switch wr.op.Kind {
 	case "noti":
 		w.recordSubmitted(wr.n)
+		if wr.via != "" {
+			if t := w.c.GetTarget(wr.via); t != nil {
+				wr.err = t.GnmiUpdate(wr.n)
+			}
+			break
+		}
 		wr.err = w.c.GnmiUpdate(wr.n)
 	case "reset":
 		w.c.Reset(name)
@@ -770,6 +785,24 @@ func (w *world) stepWriter(st Step) {
 		}
 	}
 	wr := &writer{owner: fmt.Sprintf("w:%d", w.step), target: name, op: op, step: w.step}
+	if op.Kind == "noti" && op.Via > 0 && w.sc.Targets > 1 {
+		if via := targetName((op.T%w.sc.Targets + op.Via) % w.sc.Targets); via != name {
+			if !w.live[via] || w.busy[via] {
+				w.st.skippedSteps++
+				return
+			}
+			// stored in via's tree; every response built from it names <name>: only the trace monitors judge from here on
+			wr.via, w.foreign, w.st.foreignWrite = via, true, true
+			st.ParkFeed, st.ParkCB = false, 0
+			if w.acl != nil {
+				for u := range w.sc.ACL.Allow {
+					if !w.acl.allowed(u, name) && w.acl.allowed(u, via) {
+						w.st.foreignDeniedStored = true
+					}
+				}
+			}
+		}
+	}
 	for _, s := range w.subs {
 		if s.started && !s.ended {
 			wr.alive = append(wr.alive, s)
@@ -1204,6 +1237,8 @@ func (w *world) body() {
 			w.stepGrant(st)
 		case "poll":
 			w.stepPoll(st)
+		case "pollflood":
+			w.stepPollFlood(st)
 		case "eof":
 			w.stepEOF(st)
 		case "cancel":
@@ -1321,6 +1356,98 @@ func (w *world) stepPoll(st Step) {
 	s.stream.recvC <- &pb.SubscribeRequest{Request: &pb.SubscribeRequest_Poll{Poll: &pb.Poll{}}}
 	synctest.Wait()
 	w.st.pollRound = true
+	w.noteProgress()
+}
+
+// stepPollFlood: the client of a POLL subscription stops reading and keeps sending poll triggers (the handler
+// goes on reading requests and walking the cache whatever the send side does), now and then letting a send
+// pass; then it reads again. The cache does not change meanwhile. C08: the backlog of the blocked subscriber
+// holds at most one entry per distinct pending leaf (plus the one marker that becomes the sync response), so
+// what it is sent after its last trigger is bounded by the matching leaves, not by the number of triggers.
+func (w *world) stepPollFlood(st Step) {
+	if len(w.subs) == 0 {
+		return
+	}
+	s := w.subs[st.Sub%len(w.subs)]
+	if !s.started || s.ended || s.spec.Mode != "poll" || !s.spec.Gated || s.eofSent || s.patErr || w.foreign || len(w.parked) > 0 {
+		w.st.skippedSteps++
+		return
+	}
+	out, parked, _ := s.stream.snapshot()
+	if parked || len(out) == 0 || !out[len(out)-1].r.GetSyncResponse() || w.g.isParked(fmt.Sprintf("sub:%d", s.i)) {
+		w.st.skippedSteps++ // the previous round is not complete: its leftovers would count against this one
+		return
+	}
+drainTokens:
+	for {
+		select {
+		case <-s.stream.tokens:
+		default:
+			break drainTokens
+		}
+	}
+	polls, mark := 0, len(out)
+	for _, tok := range st.Flood {
+		if s.ended {
+			break
+		}
+		if tok == 0 {
+			s.stream.recvC <- &pb.SubscribeRequest{Request: &pb.SubscribeRequest_Poll{Poll: &pb.Poll{}}}
+			synctest.Wait()
+			polls++
+			o, _, _ := s.stream.snapshot()
+			mark = len(o)
+			continue
+		}
+		for i := 0; i < tok; i++ {
+			if _, p, _ := s.stream.snapshot(); !p {
+				break
+			}
+			s.stream.grant(1)
+			synctest.Wait()
+		}
+	}
+	if w.fail != nil {
+		panic(w.fail)
+	}
+	if polls == 0 {
+		return
+	}
+	s.flooded = true
+	if polls >= 2 {
+		w.st.pollFlood = true
+	}
+	if polls >= 5 {
+		w.st.pollFloodBig = true
+	}
+	if st.N == 1 {
+		// the client stays away: the next sleep step judges the send timeout of this POLL subscription
+		w.st.pollFloodLeftStalled = true
+		w.noteProgress()
+		return
+	}
+	leaves := len(w.expected(s))
+	bound := leaves + 2 // the response in flight + one entry per distinct matching leaf + the sync marker
+	for i := 0; i < bound+polls+8; i++ {
+		if _, p, _ := s.stream.snapshot(); !p {
+			break
+		}
+		s.stream.grant(1)
+		synctest.Wait()
+	}
+	o, stillParked, _ := s.stream.snapshot()
+	if got := len(o) - mark; got > bound || stillParked {
+		w.failf("C08", "step %d: POLL subscription %d stopped reading, sent %d poll triggers and then read again: after its last trigger it was sent %d responses (more pending: %v) although only %d distinct leaves match its paths and the cache did not change: the backlog of a blocked subscriber holds at most one entry per distinct pending leaf (+1 in flight, +1 sync marker = %d), it must not grow with the number of triggers", w.step, s.i, polls, got, stillParked, leaves, bound)
+	}
+	syncs := 0
+	for _, x := range o {
+		if x.r.GetSyncResponse() {
+			syncs++
+		}
+	}
+	if syncs > 0 {
+		s.polls = syncs - 1 // (bookkeeping of the C05 clauses, which do not judge flooded subscriptions)
+	}
 	w.noteProgress()
 }
 
@@ -1815,6 +1942,9 @@ func (w *world) checkAll(drained bool) {
 	if w.acl != nil && w.acl.flipped() {
 		return // grants changed while streams were open: only the trace monitor applies (see aclflip)
 	}
+	if w.foreign {
+		return // a notification lives in another target's tree than the one it names: convergence is not defined
+	}
 	for _, s := range w.subs {
 		if !s.started {
 			continue
@@ -1961,6 +2091,9 @@ func (w *world) checkStream(s *subState, out []sent, drained bool) {
 }
 
 func (w *world) checkOncePoll(s *subState, out []sent, drained bool) {
+	if s.flooded {
+		return
+	}
 	// rounds are separated by sync responses
 	var rounds [][]sent
 	cur := []sent{}
